@@ -30,7 +30,7 @@ m = {
     "hooks": {
         "guard": "POLYSEED_VERIF",
         "enable": "no source hooks: harness translation units #include the real /repo sources (extracted on every run) and are compiled by goto-cc with -DPOLYSEED_VERIF; nothing in /repo tests the define",
-        "baseline_off_cmd": "cmake -S /repo -B /repo/_build -G Ninja >/dev/null && cmake --build /repo/_build >/dev/null && ctest --test-dir /repo/_build -j8 --timeout 900",
+        "baseline_off_cmd": "cmake -S /repo -B /repo/_build -G Ninja >/dev/null && cmake --build /repo/_build >/dev/null && /repo/_build/polyseed-tests",
         "source_commits": propdefs.HOOK_COMMITS,
         "add_only": True,
     },
